@@ -20,8 +20,8 @@ Code model of `cola/linalg/trace/diag_trace.py` (the dispatch rules of `diag` an
 * `className`, `diagRuleClass`, `traceRuleClass` — the Python class of the operator object and the
   class in the first position of the rule the model applies (compared on every run with what the
   live resolver of /repo selects on real instances: stream D of harness/props/c08.py);
-* `nonsqBlock`, `nonsqFactor` — the two named clauses (recorded defects): the `BlockDiag` /
-  `Kronecker` rule reached with a non-square block / factor.
+* the `BlockDiag` / `Kronecker` rules refuse (`assert all(M.shape[-2] == M.shape[-1] …)`) when a
+  block / factor is not square (repaired in /repo: they used to return wrong values).
 -/
 
 namespace Op
@@ -162,12 +162,14 @@ def diagCode (bs0 : Nat) (alg : Alg) : Op R → Int → Except String (List R)
   | sum Ms, k => sumFold (Ms.map (fun M => diagCode bs0 alg M k))
   | bdiag Ms mults, k =>
       if k ≠ 0 then .error "error:AssertionError"
+      else if (Ms.map (fun M => decide (M.rows ≠ M.cols))).any id then .error "error:AssertionError"
       else do
         let ds ← seqE (Ms.map (fun M => diagCode bs0 alg M k))
         let parts := (ds.zip mults).flatMap (fun p => List.replicate p.2 p.1)
         if parts.isEmpty then .error "error:ValueError" else pure parts.flatten
   | kron Ms, k =>
       if k ≠ 0 then .error "error:AssertionError"
+      else if (Ms.map (fun M => decide (M.rows ≠ M.cols))).any id then .error "error:AssertionError"
       else do
         let ds ← seqE (Ms.map (fun M => diagCode bs0 alg M k))
         pure (outerProd ds)
@@ -240,31 +242,5 @@ def traceRuleClass : Op R → String
   | kron _ => "cola.ops.operators.Kronecker"
   | annot _ A => A.traceRuleClass
   | _ => "cola.ops.operator_base.LinearOperator"
-
-/-! ## named clauses -/
-
-/-- clause `bdiag-nonsquare-block`: the rule recursion of `diag` reaches a `BlockDiag` with a
-non-square block (the rule concatenates the blocks' own diagonals) -/
-def nonsqBlock : Op R → Bool
-  | sum Ms => (Ms.map (·.nonsqBlock)).any id
-  | bdiag Ms _ => (Ms.map (fun M => decide (M.rows ≠ M.cols))).any id || (Ms.map (·.nonsqBlock)).any id
-  | kron Ms => (Ms.map (·.nonsqBlock)).any id
-  | kronsum Ms => (Ms.map (·.nonsqBlock)).any id
-  | annot _ A => A.nonsqBlock
-  | _ => false
-
-/-- clause `kron-nonsquare-factor`: the rule recursion of `diag` reaches a `Kronecker` with a
-non-square factor (the rule takes the outer product of the factors' own diagonals) -/
-def nonsqFactor : Op R → Bool
-  | sum Ms => (Ms.map (·.nonsqFactor)).any id
-  | bdiag Ms _ => (Ms.map (·.nonsqFactor)).any id
-  | kron Ms => (Ms.map (fun M => decide (M.rows ≠ M.cols))).any id || (Ms.map (·.nonsqFactor)).any id
-  | kronsum Ms => (Ms.map (·.nonsqFactor)).any id
-  | annot _ A => A.nonsqFactor
-  | _ => false
-
-def diagClauses (A : Op R) : List String :=
-  (if A.nonsqBlock then ["bdiag-nonsquare-block"] else []) ++
-  (if A.nonsqFactor then ["kron-nonsquare-factor"] else [])
 
 end Op
